@@ -151,8 +151,26 @@ class _Run:
         self.m_pref = None  # (col | "L" | "R", maxcol)
         self.model_on = True
         signals = self.signals = []
-        urwid.connect_signal(e, "change", lambda w, new: signals.append(("change", new, w.edit_text)))
-        urwid.connect_signal(e, "postchange", lambda w, old: signals.append(("postchange", old, w.edit_text)))
+        self.sig_bad = None
+
+        def look(w, when):
+            # a listener may look at the widget: the offset is inside the text also while a modification is being signalled
+            t, ps = w.edit_text, w.edit_pos
+            # (only the range: a key's text change and its cursor move are two steps, and between them - where the
+            # signals go out - the cursor still has its old, clipped value, which need not be a character boundary)
+            if not 0 <= ps <= len(t):
+                self.sig_bad = self.sig_bad or ("offset-outside-text", f"during '{when}': edit_pos={ps} but the text {t!r} has length {len(t)}")
+
+        def on_change(w, new):
+            signals.append(("change", new, w.edit_text))
+            look(w, "change")
+
+        def on_postchange(w, old):
+            signals.append(("postchange", old, w.edit_text))
+            look(w, "postchange")
+
+        urwid.connect_signal(e, "change", on_change)
+        urwid.connect_signal(e, "postchange", on_postchange)
         self.last_render = None  # (maxcol, focus, text, pos) of the last render with nothing since
         self.log.add("cfg", [repr(cfg)])
 
@@ -341,6 +359,9 @@ class _Run:
             if core.raised_in_harness(ex):
                 raise core.HarnessError(f"harness exception in op {op}: {core.format_exc(ex)}") from ex
             self.violate("C10.1", f"{k}-raised:{core.exc_signature(ex)}", f"step {i} {op} width {self.maxcol} text {before_text!r} pos {before_pos}: {core.format_exc(ex)}")
+            return False
+        if self.sig_bad is not None:
+            self.violate("C10.2", f"{self.sig_bad[0]}-while-a-modification-is-signalled", f"step {i} {op}: {self.sig_bad[1]}")
             return False
         # clause 2: offset within the text, never inside a multi-byte character
         if not 0 <= e.edit_pos <= len(e.edit_text):
